@@ -20,9 +20,12 @@ impl TreeOpts {
     }
 }
 
-const PLAIN_NAMES: [&str; 22] = ["a", "b", "c", "name", "given_name", "addr", "x1", "k k", "q\"\\", "\u{e9}t\u{e9}", "\u{65e5}\u{672c}", "Z",
+const PLAIN_NAMES: [&str; 32] = ["a", "b", "c", "name", "given_name", "addr", "x1", "k k", "q\"\\", "\u{e9}t\u{e9}", "\u{65e5}\u{672c}", "Z",
     // registered claim names below the top level are ordinary members; names that are prefixes of one another
-    "iss", "exp", "iat", "nbf", "id", "idcard", "card", "no", "note", "te"];
+    "iss", "exp", "iat", "nbf", "id", "idcard", "card", "no", "note", "te",
+    // the JSONPath root character as a name; characters that JSON must escape as \uXXXX (C0 controls, DEL needs none), a combining
+    // mark, zero-width and private-use characters, a lone '~', a name that looks like a number / a path index
+    "$", "$$", "ctl\u{1}\u{1f}", "del\u{7f}", "e\u{301}", "zw\u{200b}\u{200d}", "pua\u{e000}", "~", "0", "-1"];
 const WILD_NAMES: [&str; 6] = ["", "a.b", "c[0]", ".", "[", "$.x"];
 const NONBMP_NAMES: [&str; 2] = ["\u{1f600}", "k\u{1d4b3}"];
 const STRS: [&str; 16] = [
